@@ -168,3 +168,33 @@ func ReaddIdentities(inv *bill.Invoice, c uint32) []string {
 	}
 	return errs
 }
+
+// OutsideExactDomain reports whether a calculated invoice presents a tax row
+// whose amount is a product beyond C05's domain: Percentage.Of goes through
+// float64(base) * float64(percent), exact only while |base x percent| (in units)
+// stays below 2^52.  Documents edited after their first calculation (the
+// recalculation family) are not sent through the model, whose two operation
+// sets decide the domain for generated documents, so their magnitudes are
+// judged here (found by a background sweep, thorough seed 31: dropping
+// prices_include raised a 1.9e13-unit base under a 7469 % rate).
+func OutsideExactDomain(inv *bill.Invoice) bool {
+	if inv.Totals == nil || inv.Totals.Taxes == nil {
+		return false
+	}
+	lim := new(big.Int).Lsh(big.NewInt(1), 52)
+	over := func(a, p num.Amount) bool {
+		v := new(big.Int).Mul(big.NewInt(a.Value()), big.NewInt(p.Value()))
+		return v.Abs(v).Cmp(lim) >= 0
+	}
+	for _, ct := range inv.Totals.Taxes.Categories {
+		for _, rt := range ct.Rates {
+			if rt.Percent != nil && over(rt.Base, rt.Percent.Base()) {
+				return true
+			}
+			if rt.Surcharge != nil && over(rt.Base, rt.Surcharge.Percent.Base()) {
+				return true
+			}
+		}
+	}
+	return false
+}
